@@ -28,6 +28,29 @@ def state_diff(exp, got, exact=False):
     return d
 
 
+def model_outcome(wm, dom_m, aname, call, st):
+    """what the reference semantics says about one (action, call, state):
+    ('app', bool, successor|None) | ('outside', why) | ('malformed', why)"""
+    act = dom_m.actions[aname]
+    b = model.binding(act, call)
+    try:
+        app = model.holds(wm, act.pre, st, b)
+        if any(0 < x < SLACK for x in model.cmp_margins(wm, act.pre, st, b)):
+            return ("outside", "boundary")
+        if not app:
+            return ("app", False, None)
+        succ = model.successor(wm, act, call, st, check_pre=False)
+        if any(0 < x < SLACK for x in model.cmp_margins(wm, act.eff, st, b)):
+            return ("outside", "boundary")
+        return ("app", True, succ)
+    except (model.Outside, model.Inconsistent) as e:
+        return ("outside", str(e))
+    except model.ModelError as e:
+        return ("malformed", str(e))
+    except (KeyError, IndexError, TypeError, ValueError) as e:
+        return ("malformed", f"{type(e).__name__}: {e}")
+
+
 class Probe:
     """probes for one (library domain, model domain) pair over a generated universe"""
 
@@ -47,7 +70,7 @@ class Probe:
             b = model.binding(act, call)
             try:
                 states, _ = gen.covering_states(rng, self.wm, self.gw, [(act.pre, b), (act.eff, b)],
-                                                max_exhaustive_bits=bits, n_random=n_random, n_valuations=2)
+                                                max_exhaustive_bits=bits, n_random=n_random, n_valuations=2, n_boundary=2)
             except model.ModelError:
                 states = [gen.random_state(rng, self.gw) for _ in range(max_states)]
             if len(states) > max_states:
@@ -56,24 +79,7 @@ class Probe:
 
     def expected(self, aname, call, st):
         """('app', bool, successor|None) | ('outside', why) | ('malformed', why)"""
-        act = self.dom_m.actions[aname]
-        b = model.binding(act, call)
-        try:
-            app = model.holds(self.wm, act.pre, st, b)
-            if any(0 < x < SLACK for x in model.cmp_margins(self.wm, act.pre, st, b)):
-                return ("outside", "boundary")
-            if not app:
-                return ("app", False, None)
-            succ = model.successor(self.wm, act, call, st, check_pre=False)
-            if any(0 < x < SLACK for x in model.cmp_margins(self.wm, act.eff, st, b)):
-                return ("outside", "boundary")
-            return ("app", True, succ)
-        except (model.Outside, model.Inconsistent) as e:
-            return ("outside", str(e))
-        except model.ModelError as e:
-            return ("malformed", str(e))
-        except (KeyError, IndexError, TypeError, ValueError) as e:
-            return ("malformed", f"{type(e).__name__}: {e}")
+        return model_outcome(self.wm, self.dom_m, aname, call, st)
 
     def observe(self, aname, call, st, dom=None, sf=None):
         """('app', bool, successor|None) | ('raised', where, what)"""
